@@ -10,7 +10,7 @@
    functions, the compiler honouring its printed escape decisions) is
    assumed and measured: mallocs per call over a sweep of shapes and sizes
    under three CPU-feature configurations. *)
-From Strcase Require Import Base Spec EffectSem EffectFacts Safety FoldFacts121.
+From Strcase Require Import Base Spec EffectSem EffectFacts Safety FoldFacts121a.
 From Coq Require Import String List.
 
 Theorem C05_no_alloc_event : forall f tr,
